@@ -317,6 +317,8 @@ def seq_component(ctx, comp, specdir, impl, emit_cfg, trace_mod, trace_cfg, gocm
         with open(tf, "w") as f:
             for ev in rp["trace"]:
                 f.write(json.dumps(ev) + "\n")
+        if rp["mismatch"]["kind"] == "harness-panic":
+            raise Inconclusive("the harness itself panicked (no library frame on the stack): %s" % rp["mismatch"]["actual"][:600])
         if rp["mismatch"]["kind"] in ("panic", "hang"):
             ctx.violation("%s: real code %s: %s" % (comp, "panicked" if rp["mismatch"]["kind"] == "panic" else "did not return", rp["mismatch"]["actual"]), rp,
                           key="%s/%s/%s" % (kp, rp["mismatch"]["kind"], rp["ops"][-1]["n"] if rp["ops"] else "init"))
@@ -363,6 +365,8 @@ def seq_component(ctx, comp, specdir, impl, emit_cfg, trace_mod, trace_cfg, gocm
             rp = trace_to_replay(comp, events[: line - start + 1])
             rp["failing_event"] = bad
             kind = {"Panic": "panic", "Hang": "hang"}.get(bad.get("ev"), "trace")
+            if bad.get("ev") == "Panic" and bad.get("inlib") is False:
+                raise Inconclusive("the harness itself panicked (no library frame on the stack): %s" % json.dumps(bad)[:600])
             ctx.violation("%s: abstract spec rejects event %d of a real-code trace: %s" % (comp, line - start, json.dumps(bad)[:300]), rp,
                           key="%s/%s/%s" % (kp, kind, bad.get("ev")))
     return ws, rs
@@ -378,6 +382,9 @@ COMPONENTS = {
     "Heap-heap": ("heap", ["heapz"], "Heap", "HeapTrace", "Trace.cfg"),
     "Heap-slice": ("heap", ["heapz"], "Heap", "HeapTrace", "Trace.cfg"),
     "Heap-std": ("heap", ["heapz"], "Heap", "HeapTrace", "Trace.cfg"),
+    "SkipList-skip": ("skiplist", ["listz"], "SkipList", "OrderedMapTrace", "Trace_nk6.cfg"),
+    "SkipList-skipzero": ("skiplist", ["listz"], "SkipList", "OrderedMapTrace", "Trace_nk6.cfg"),
+    "SkipList-cmp": ("skiplist", ["listz"], "SkipList", "OrderedMapTrace", "Trace_nk6.cfg"),
     "DList": ("dlist", [], "DList", "DListTrace", "Trace_thorough.cfg"),
     "SList": ("slist", [], "SList", "SListTrace", "Trace.cfg"),
 }
@@ -397,8 +404,12 @@ def generic_replay(ctx, rp):
     with open(f, "w") as fo:
         json.dump({"component": comp, "init": rp["init"], "ops": rp["ops"], "trace": []}, fo)
     renv = dict(GOENV)
-    if comp.startswith("Bits-") or comp.startswith("Heap-"):
+    if comp.startswith("Bits-") or comp.startswith("Heap-") or comp.startswith("SkipList-"):
         renv["VERIF_FLAVOUR"] = comp.split("-", 1)[1]
+    if comp.startswith("SkipList-"):
+        renv["VERIF_FLAVOUR"] = "cmp" if comp.endswith("cmp") else "skip"
+        renv["VERIF_FREE"] = "1"
+        renv["VERIF_NK"] = "6"
     r = ctx.run([binp, "replay", "-file", f, "-out", ctx.out], timeout=600, env=renv)
     log(r.stdout[-4000:])
     ok, line, n = ctx.validate_trace(specdir, tmod, tcfg, os.path.join(ctx.out, "replay_trace.ndjson"), tag="replay")
@@ -552,3 +563,31 @@ def conc_component(ctx, comp, specdir, mcmod, emit_cfg, gocmd, overlays, shim_fi
         ctx.cov["engines"].append({"engine": "E4 real goroutines (-race)", "component": comp, "histories": rs["histories"], "events": rs["events"]})
         judge(os.path.join(outd, "real_hist.ndjson"), comp + "_real", "real goroutines under the race detector", rs["histories"])
     return ws
+
+
+def rand_only(ctx, comp, specdir, trace_mod, trace_cfg, gocmd, n, ln, env=None, overlays=None):
+    """E2 alone: seeded random histories from the real code validated by TLC."""
+    ctx.copy_repo(overlays if overlays is not None else getattr(ctx, "overlays", []))
+    binp = os.path.join(ctx.bin, gocmd)
+    if not os.path.exists(binp):
+        binp = ctx.go_build(gocmd)
+    outd = os.path.join(ctx.out, comp + "_rand")
+    os.makedirs(outd, exist_ok=True)
+    ctx.run([binp, "rand", "-out", outd, "-n", str(n), "-len", str(ln), "-seed", str(ctx.seed)], timeout=3000, env=dict(GOENV, **(env or {})))
+    rs = read_json(os.path.join(outd, "rand_stats.json"))
+    ctx.cov["engines"].append({"engine": "E2 tracecheck", "component": comp, "traces": rs["traces"], "events": rs["events"], "op_count": rs["op_count"]})
+    tf = os.path.join(outd, "rand_traces.ndjson")
+    ok, line, nl = ctx.validate_trace(specdir, trace_mod, trace_cfg, tf, tag=comp + "_rand")
+    log("TLC trace validation %s random histories: %d events, %s" % (comp, nl, "accepted" if ok else "REJECTED at line %s" % line))
+    if ok:
+        ctx.cov["traces_validated_against_impl"] += rs["traces"]
+    else:
+        start, events = locate_trace(tf, line)
+        bad = events[line - start] if line - start < len(events) else {}
+        rp = trace_to_replay(comp, events[: line - start + 1])
+        rp["failing_event"] = bad
+        kind = {"Panic": "panic", "Hang": "hang"}.get(bad.get("ev"), "trace")
+        if bad.get("ev") == "Panic" and bad.get("inlib") is False:
+            raise Inconclusive("the harness itself panicked (no library frame on the stack): %s" % json.dumps(bad)[:600])
+        ctx.violation("%s: abstract spec rejects event %d of a real-code trace: %s" % (comp, line - start, json.dumps(bad)[:300]), rp,
+                      key="%s/%s/%s" % (comp, kind, bad.get("ev")))
